@@ -99,7 +99,19 @@ type devBatch struct {
 	// by one slow reader - the application's arrangement (8 slots, one relay goroutine); every device plays on a MIDI
 	// channel of its own, by which the common stream is told apart again
 	SharedOut int `json:"shared_out"`
+	// Logs: the device is created with logging on (noLogs = false), as the application creates it
+	Logs bool `json:"logs"`
+	// SigCap > 0 (with OutCap > 0): the termination-signal channel has that capacity (the application's has 1 and is shared
+	// by all devices and os/signal) and is filled up with a marker signal before every event - a signal somebody else raised
+	// and nobody has read yet; the harness reads it only while it waits to hand over the next event
+	SigCap int `json:"sigcap"`
 }
+
+// harnessLogs / harnessSigCap: set per batch by cmdDevice (which runs batches one after the other)
+var harnessLogs bool
+var harnessSigCap int
+
+const markerSig = syscall.SIGUSR2
 
 // marker is the harness's own filler message (Active Sensing: no device ever sends it)
 var marker = midi.Event{0xFE}
@@ -107,6 +119,15 @@ var marker = midi.Event{0xFE}
 func isMarker(m midi.Event) bool { return len(m) == 1 && m[0] == 0xFE }
 
 func (r *devRun) fill() {
+	if r.sigfill {
+		for more := true; more; {
+			select {
+			case r.sigs <- markerSig:
+			default:
+				more = false
+			}
+		}
+	}
 	if r.small == nil || !r.prefill {
 		return
 	}
@@ -266,6 +287,8 @@ type devRun struct {
 	slow    time.Duration
 	pending []midi.Event
 	prefill bool
+	sigfill bool
+	sgPending int
 }
 
 // tightOutput makes the device write into a small channel that nobody reads while an event is being handled: the
@@ -316,8 +339,12 @@ func newDevRunInto(conf config.Config, axinfo map[string]absInfo, sub string, ou
 	if shared != nil {
 		devOut = shared
 	}
+	if harnessSigCap > 0 && r.small != nil {
+		r.sigs = make(chan os.Signal, harnessSigCap)
+		r.sigfill = true
+	}
 	d := device.NewDevice(idev, config.DeviceConfig{ConfigFile: "verif", ConfigType: "user", Config: conf},
-		devOut, nil, true, 0, r.sigs)
+		devOut, nil, !harnessLogs, 0, r.sigs)
 	r.dev = &d
 	go func() {
 		defer func() {
@@ -352,6 +379,15 @@ func (r *devRun) send(ev *input.InputEvent) string {
 						r.pending = append(r.pending, m)
 					}
 				default:
+				}
+				if r.sigfill {
+					select {
+					case s := <-r.sigs:
+						if s != markerSig {
+							r.sgPending++
+						}
+					default:
+					}
 				}
 				if time.Now().After(deadline) {
 					return "hang: the engine did not take the next event within 5s"
@@ -416,11 +452,14 @@ func (r *devRun) drain() ([][]int, int) {
 			}
 		}
 	}
-	sg := 0
+	sg := r.sgPending
+	r.sgPending = 0
 	for {
 		select {
-		case <-r.sigs:
-			sg++
+		case s := <-r.sigs:
+			if s != markerSig {
+				sg++
+			}
 			continue
 		default:
 		}
@@ -611,7 +650,9 @@ func cmdDevice(args []string) error {
 			}
 		}
 		for _, walk := range b.Walks {
+			harnessLogs, harnessSigCap = b.Logs, b.SigCap
 			r, err := newDevRunOut(conf, ac.Axinfo, b.Sub, b.OutCap, b.SlowUs)
+			harnessLogs, harnessSigCap = false, 0
 			if err != nil {
 				return err
 			}
